@@ -22,7 +22,9 @@ From Comdex Require Import Lib.Base Lib.GenesisTypes Gen.GenesisTable.
 Open Scope Z_scope.
 
 Record table := mkT {
-  t_pref : list prefix_row; t_exp : list export_row; t_imp : list import_row; t_unrec : list unrec_row }.
+  t_pref : list prefix_row; t_exp : list export_row; t_imp : list import_row; t_unrec : list unrec_row;
+  t_guard : list guard_row;    (* what the cross-state validating setters depend on *)
+  t_order : list string }.     (* the modules in the order app.go initialises them *)
 
 Definition mem_str (s : string) (l : list string) : bool := existsb (String.eqb s) l.
 Definition mem_z (z : Z) (l : list Z) : bool := existsb (Z.eqb z) l.
@@ -130,16 +132,61 @@ Definition why_lost (t : table) (m : string) (b : Z) : Z :=
    condition (both writers of the net-fee prefix reject a negative result), so the success path is
    the path taken: these rows put nothing at risk.  The behavioural run checks exactly this (the
    prediction for such a prefix is "identical"). *)
-Definition cross_guard (r : import_row) : bool := (i_guard r =? 1) || (i_guard r =? 2).
+(* A setter that validates against other state (guards 1 / 2) is still harmless on a round trip when
+   - it is the ONLY writer of the prefixes it writes: every stored record went through the same
+     validation when it was written;
+   - it reads nothing of its own module's store;
+   - everything it asks other modules reads prefixes there that are never deleted from, that come
+     back from the round trip (directly, through setters that cannot fail), and whose module app.go
+     initialises EARLIER: what the validation saw when the record was written is still there, and
+     already there, when the record is imported.
+   esm.SetKillSwitchData (the app must exist: asset.GetApp, apps are never deleted, asset precedes
+   esm) is of that kind; collector.SetCollectorLookupTable was not (WasmSetCollectorLookupTable wrote
+   the same prefix without the genesis-token check).  The behavioural run imports the modules in an
+   order that respects [t_order]'s constraints and compares the prefix. *)
+Fixpoint index_of (m : string) (l : list string) (i : nat) : option nat :=
+  match l with
+  | [] => None
+  | x :: r => if String.eqb x m then Some i else index_of m r (S i)
+  end.
+Definition precedes (order : list string) (m1 m2 : string) : bool :=
+  match index_of m1 order 0, index_of m2 order 0 with
+  | Some i, Some j => Nat.ltb i j
+  | _, _ => false
+  end.
 
-Fixpoint taint (tainted : bool) (rows : list import_row) : list (import_row * bool) :=
+Definition unguarded (t : table) (m : string) : bool := forallb (fun r => i_guard r =? 0) (imp_rows t m).
+
+Definition foreign_ok (t : table) (m : string) (f : string * string * list Z) : bool :=
+  let m' := fst (fst f) in
+  let bs := snd f in
+  precedes (t_order t) m' m && unguarded t m' &&
+  match bs with [] => false | _ => true end &&
+  forallb (fun b => match find (fun p => String.eqb (p_mod p) m' && (p_byte p =? b)) (t_pref t) with
+                    | Some p => match p_deleters p with [] => true | _ => false end &&
+                                cover_ok (classify t m' b)
+                    | None => false
+                    end) bs.
+
+Definition guard_harmless (t : table) (r : import_row) : bool :=
+  match find (fun g => String.eqb (g_mod g) (i_mod r) && String.eqb (g_setter g) (i_setter r)) (t_guard t) with
+  | Some g => g_sole g && g_noreads g &&
+              match g_foreign g with [] => false | _ => true end &&
+              forallb (foreign_ok t (i_mod r)) (g_foreign g)
+  | None => false
+  end.
+
+Definition cross_guard (t : table) (r : import_row) : bool :=
+  ((i_guard r =? 1) || (i_guard r =? 2)) && negb (guard_harmless t r).
+
+Fixpoint taint (t : table) (tainted : bool) (rows : list import_row) : list (import_row * bool) :=
   match rows with
   | [] => []
-  | r :: rest => (r, tainted || cross_guard r) :: taint (tainted || (i_guard r =? 1)) rest
+  | r :: rest => (r, tainted || cross_guard t r) :: taint t (tainted || ((i_guard r =? 1) && cross_guard t r)) rest
   end.
 
 Definition at_risk (t : table) (m : string) (b : Z) : bool :=
-  existsb (fun rr => snd rr && mem_z b (i_writes (fst rr))) (taint false (imp_rows t m)).
+  existsb (fun rr => snd rr && mem_z b (i_writes (fst rr))) (taint t false (imp_rows t m)).
 
 (* a prefix is live when some keeper function writes under it *)
 Definition live (p : prefix_row) : bool := match p_writers p with [] => false | _ => true end.
@@ -230,6 +277,10 @@ Local Open Scope string_scope.
           to 0 although both are exported) - the rows ("auctionsV2", 1 | 5) are gone;
    fixed: property=C20 PENDING class 7 (auction V1 InitGenesis filled the lend dutch auctions from the
           DutchAuction field) - the row ("auction", 32) is gone;
+   decided, not a defect: class 13 (esm kill switches imported through the validating
+          SetKillSwitchData, InitGenesis returning on its error) - the rows ("esm", 4 | 5 | 7) are gone:
+          the guard is harmless ([guard_harmless]: sole writer, validates against never-deleted
+          asset apps, asset is initialised before esm);
    fixed: property=C20 PENDING class 12 (collector lookup table imported through the validating
           setter, InitGenesis returning on its error) - the rows ("collector", 3 | 1 | 5 | 7) are
           gone: InitGenesis stores the exported records with SetGenCollectorLookupTable. *)
@@ -257,10 +308,6 @@ Definition known_holes : list (string * Z * Z) :=
     ("asset", 36, 11); ("collector", 9, 11); ("esm", 16, 11); ("esm", 17, 11); ("lend", 81, 11);
     ("liquidationsV2", 7, 11);
     ("rewards", 21, 11); ("rewards", 22, 11);
-    (* 13: esm: the kill switches are imported through SetKillSwitchData, which validates against the
-           asset module (the app must exist) and on whose error InitGenesis returns; the user deposits
-           and the cool-off data come after it *)
-    ("esm", 4, 13); ("esm", 5, 13); ("esm", 7, 13);
     (* 14: auction V1: biddings and histories are not exported; both auction id counters are taken
            from the LAST exported (lend) dutch auction only *)
     ("auction", 18, 14); ("auction", 21, 14); ("auction", 22, 14);
@@ -298,7 +345,7 @@ Definition holds_C20_step (class_o class_n id_o id_n bal_o bal_n : Z) : bool :=
   (class_o =? class_n) && (id_o =? id_n) && (bal_o =? bal_n).
 
 (* the regenerated table *)
-Definition the_table : table := mkT prefixes exports imports unrecognised.
+Definition the_table : table := mkT prefixes exports imports unrecognised guard_deps init_order.
 
 (* prediction for one prefix row of the regenerated table, as a small code for the runner:
    0 identical, 1 zero-valued records, 2 empty, 3 counter recomputed (see [counter_restore]),
